@@ -395,7 +395,7 @@ def run_build(case, rec):
         gp = dict(pars)
         for a_ in i.parameters.orientation_parameters:
             gp[a_.name] = 25.0
-        qg = np.array([0.3, 0.6, 1.0, 1.5])/s
+        qg = np.array([0.3, 0.6, 1.0, 1.5, 2.0, 3.0, 4.0, 6.0])/s
         qxy = [qg*0.8, qg*0.6]
         variants = [("oriented 2-D", gp)] if i.parameters.orientation_parameters else []
         slds_g = [p_.name for p_ in i.parameters.call_parameters if p_.type == "sld" and p_.name in sas.active_names(i, pars)]
@@ -414,7 +414,7 @@ def run_build(case, rec):
             Gx = np.asarray(direct_model.call_kernel(mx.make_kernel(qxy), dict(vp)), float)
             if not np.all(np.isfinite(G64)):
                 continue
-            okg = core.close(Gx, G64, 1e-11, 1e-13*float(np.max(np.abs(G64 - bg))))
+            okg = core.close(Gx, G64, 1e-12, 1e-13*float(np.max(np.abs(G64 - bg))))
             rec.check("long_double_at_least_double_accurate", okg,
                       None if okg else {"model": name, "case": label + ", q*size of order one", "double": G64, "long_double": Gx,
                                         "max_rel_err": core.maxrel(Gx, G64)}, key="C15/long-double-less-accurate-than-double")
